@@ -848,6 +848,9 @@ CONST_A = "(1, 2, 3, 4, 5, 6, 7, 8, 9, 10)"
 CONST_B = "(21, 22, 23, 24, 25, 26, 27, 28, 29)"
 
 
+GENERATED_CRASHES = []
+
+
 def generated_name_cases(mods, rnd, tier):
     """[(kind, coq term of the model's answer check, description, source)]: the names the real rules
     generate, next to the module's names in use"""
@@ -864,8 +867,12 @@ def generated_name_cases(mods, rnd, tier):
     for used in used_sets:
         used[:] = [u for u in used if not keyword.iskeyword(u)]
         src = "\n".join(f"{u} = 0" for u in used) + "\n" if used else "pass\n"
-        with common.quiet():
-            got = list(itertools.islice(fixes._unused_loop_variable_names(core.parse(src)), 30))
+        try:
+            with common.quiet():
+                got = list(itertools.islice(fixes._unused_loop_variable_names(core.parse(src)), 30))
+        except Exception as e:  # noqa
+            GENERATED_CRASHES.append((src, f"_unused_loop_variable_names raised {type(e).__name__}: {e}"))
+            continue
         cases.append(("loop", used, got, src))
     # var_n through simplify_if_control_flow
     var_sets = [[], ["var_1"], ["var_2"], ["var_1", "var_2"], ["var_1", "var_3"], ["var_2", "var_3", "var_4"],
@@ -874,8 +881,12 @@ def generated_name_cases(mods, rnd, tier):
         pre = "\n".join(f"{u} = 100" for u in used)
         src = IF_TEMPLATE.format(pre=pre, post=", ".join(used) or "0")
         core.parse.cache_clear()
-        with common.quiet():
-            new = abstractions.simplify_if_control_flow(src)
+        try:
+            with common.quiet():
+                new = abstractions.simplify_if_control_flow(src)
+        except Exception as e:  # noqa
+            GENERATED_CRASHES.append((src, f"simplify_if_control_flow raised {type(e).__name__}: {e}"))
+            continue
         got = list(dict.fromkeys(re.findall(r"^\s+(var_\d+) = [xy]$", new, flags=re.M)))
         cases.append(("var", used, got, src))
     # {value}_{target} through implicit_dict_keys_values_items
@@ -887,8 +898,12 @@ def generated_name_cases(mods, rnd, tier):
             else:
                 src = f"d = {{1: 10, 2: 20}}\n{pre}\nfor k in d.keys():\n    print(d[k])\nprint({', '.join(used) or 0})\n"
             core.parse.cache_clear()
-            with common.quiet():
-                new = fixes.implicit_dict_keys_values_items(src)
+            try:
+                with common.quiet():
+                    new = fixes.implicit_dict_keys_values_items(src)
+            except Exception as e:  # noqa
+                GENERATED_CRASHES.append((src, f"implicit_dict_keys_values_items raised {type(e).__name__}: {e}"))
+                continue
             got = sorted(set(re.findall(r"\b(d_+k)\b", new)) - set(used)) if ".items()" in new else []
             cases.append(("keys", used + ["d", "k", "print"], got, src))
     # overused constants
@@ -901,8 +916,12 @@ def generated_name_cases(mods, rnd, tier):
               "\n".join(f"def g{i}(): return {CONST_B}" for i in range(5))
         src = f"{pre}\n{fns}\nprint(f0()[0], g0()[0], {', '.join(used) or 0})\n"
         core.parse.cache_clear()
-        with common.quiet():
-            new = abstractions.overused_constant(src, root_is_static=True)
+        try:
+            with common.quiet():
+                new = abstractions.overused_constant(src, root_is_static=True)
+        except Exception as e:  # noqa
+            GENERATED_CRASHES.append((src, f"overused_constant raised {type(e).__name__}: {e}"))
+            continue
         got = [m.lower() for m in re.findall(r"^(\w+) = \(", new, flags=re.M)]
         cases.append(("overused", used, got, src))
     return cases
@@ -1032,6 +1051,52 @@ def naming_property_fails(mods, tag: int, s: str):
 # ---------------------------------------------------------------------------------------------
 
 
+EXTRA_ALIGN_PROGRAMS = [
+    # the examples of the repository's own script for this rule
+    "some_variable = collections.namedtuple(\"some_variable\", [\"field\", \"foo\", \"bar\"])\nvariable = TypeVar(\"variable\")\n"
+    "T = Mapping[Tuple[int, int], Collection[str]]\nsomething_else = 1\n\n\ndef foo() -> Tuple[some_variable, T]:\n    _ax = 4\n"
+    "    print(_ax)\n    R = 3\n    print(R)\n    s = 2\n    print(s)\n    return some_variable(1, 2, 3)\n\n"
+    "moose = namedtuple(\"moose\", [\"field\", \"foo\", \"bar\"])\n\nax = 22\nprint(ax)\n\n\ndef main() -> None:\n"
+    "    bar: some_variable = foo()\n    print(bar)\n    return 0\n",
+    "def foo():\n    with_ = 1\n    name_ = 1\n    __def = 3\n",
+    "import unittest\n\nclass TestFoo(unittest.TestCase):\n    def setUp(self):\n        pass\n\nclass Foo(object):\n"
+    "    def setUp(self):\n        pass\n\nclass Spam:\n    def setUp(self):\n        pass\n",
+    "def func():\n    list_ = [1, 2, 3]\n    a = list_ + [4, 5, 6]\n\n    Type = 4\n    Match = 5\n    Batch = 6\n    def__ = 2\n\n"
+    "    foo_ = 1\n    bar_ = 2\n",
+    "def _foo() -> int:\n    return 1\ndef foo() -> int:\n    return 2\n",
+    # members of classes: same identifier in several classes / as a function / as a plain name
+    "class A:\n    def myMethod(self):\n        return 1\nclass B(A):\n    def myMethod(self):\n        return 2\n",
+    "class A:\n    def myMethod(self):\n        return 1\n    myAttr = 2\nclass B:\n    def myMethod(self):\n        return 2\n    myAttr = 3\n",
+    "def myThing():\n    return 1\nclass A:\n    def myThing(self):\n        return 2\n",
+    "def myThing():\n    return 1\nclass A(object):\n    def myThing(self):\n        return 2\nprint(myThing())\n",
+    "class A(object):\n    class myInner:\n        pass\n    def myInner2(self):\n        return myInner2\n",
+    "class myClass:\n    pass\nclass _otherClass(myClass):\n    def __init__(self):\n        self.helperValue = 1\n    helperValue = 0\n",
+    "def f(**kw):\n    return g(**kw)\nmyVar = f(a=1)\n",
+]
+
+
+def deterministic_align_cases():
+    """seed-independent part of the rule correspondence: the sweep templates with three name pairs and the
+    programs above, each without and with the interesting names preserved"""
+    out = []
+    for tname, tpl in TEMPLATES.items():
+        for a, b in (("myVar", "my_var"), ("MyVar", "myVar"), ("sorted", "srt")):
+            src = tpl.format(A=a, B=b)
+            try:
+                ast.parse(src)
+            except SyntaxError:
+                continue
+            out.append((src, frozenset()))
+            out.append((src, frozenset([a])))
+    for src in EXTRA_ALIGN_PROGRAMS:
+        names = sorted({n.name for n in ast.walk(ast.parse(src)) if isinstance(n, DEFS)})
+        out.append((src, frozenset()))
+        out.append((src, frozenset(names)))
+        if names:
+            out.append((src, frozenset(names[:1])))
+    return out
+
+
 def random_identifier(rnd: random.Random, non_ascii: bool) -> str:
     alpha = "abcxyzABCXYZ019__"
     extra = "éüλ名ßÉ"
@@ -1097,10 +1162,19 @@ def check(run: common.Run):
     progs, ghist = gen_programs(rnd, n_prog)
     hist.update({"program:" + k: v for k, v in ghist.items()})
     acases, crashes = [], []
+    det = deterministic_align_cases()
+    hist["align:deterministic-programs"] = len(det)
+    jobs = [(src, pres) for src, pres in det]
     for i, src in enumerate(progs):
+        if i % 3 == 2:      # preserve: one to three of the identifiers that name something in the module
+            idents = sorted({n.id for n in ast.walk(ast.parse(src)) if isinstance(n, ast.Name)}
+                            | {n.name for n in ast.walk(ast.parse(src)) if isinstance(n, DEFS)}) or ["x"]
+            preserve = frozenset(rnd.sample(idents, min(len(idents), rnd.randint(1, 3))))
+        else:
+            preserve = frozenset()
+        jobs.append((src, preserve))
+    for src, preserve in jobs:
         mods["core"].parse.cache_clear()
-        preserve = frozenset(rnd.sample(sorted({n.id for n in ast.walk(ast.parse(src)) if isinstance(n, ast.Name)}) or ["x"], 1)) \
-            if i % 5 == 4 else frozenset()
         try:
             m, want, gok = impl_align(mods, src, preserve)
         except Exception as e:  # noqa
@@ -1152,6 +1226,7 @@ def check(run: common.Run):
     evaluations += n_uses
 
     # ---- C. generated names
+    del GENERATED_CRASHES[:]
     gcases = generated_name_cases(mods, rnd, run.tier)
     it = Interner()
     with interning(it):
@@ -1297,6 +1372,9 @@ def check(run: common.Run):
     for r in regressions[:5]:
         run.violation({"kind": "fixed-witness-regressed",
                        "explanation": "the witness of a repaired defect fails again", **r}, True)
+    for src, err in GENERATED_CRASHES[:3]:
+        run.violation(dict(kind="property-oracle", site="generated-name rule", source=src, problem=err,
+                           explanation="a rule that generates names crashed on a valid module"), True)
     for src, err in crashes[:3]:
         run.violation(dict(kind="property-oracle", site="fixes.align_variable_names_with_convention", source=src,
                            problem="the rule raised " + err, explanation="renaming rule crashed on a valid module"), True)
@@ -1329,7 +1407,7 @@ def check(run: common.Run):
               "names through the real rules. Non-trivial = the output differs from the input name (string functions, "
               "counted by distinct output), at least one node renamed (programs, by source text), a non-empty use "
               "set (by program, scope, node), a generated name (by kind and names in use)."),
-        samples=[blocks[5][1] + "aB1_", rcases[0][1], rcases[1][1], progs[1][:300], progs[2][:300], gcases[-1][3][:200]],
+        samples=[blocks[5][1] + "aB1_", rcases[0][1], rcases[1][1], progs[1][:300], progs[2][:300], (gcases[-1][3][:200] if gcases else "")],
         exhaustive=False, exhaustive_strings=n_exh, programs=len(acases), uses_cases=n_uses,
         sweep=dict(programs=n_sweep, templates=len(TEMPLATES), name_pairs=len(NAME_PAIRS),
                    rules=["align_variable_names_with_convention", "undefine_unused_variables",
